@@ -148,7 +148,14 @@ def act(name, wd):
         # the stand-alone distribution helpers with explicit integer seeds (0 included)
         d = [stg.gaussian(1.0, 2.0, (3, 2), seed=0), stg.truncated_gaussian(1.0, 2.0, 0.0, (3, 2), seed=0), stg.chi2(5.0, 8, (3, 2), seed=0),
              stg.gaussian(1.0, 2.0, (3, 2), seed=7), stg.sample_gaussian_params(np.arange(5.0), np.arange(5.0) + 0.5, seed=0)]
-        return _h(fr.data, n1, n2, s1, s2, fr.noise_mean, fr.noise_std, [np.asarray(x) for x in d]), info
+        # a frame asked to start at the instant 0 (a valid start time): it and the frames derived from it carry that start
+        # time in every run, not the wall clock (seeded change C12-30)
+        f0 = stg.Frame(fchans=8, tchans=4, df=2.0, dt=1.0, fch1=1e9, seed=3, t_start=0)
+        f0.add_noise(2.0)
+        sl = f0.get_slice(1, 5)
+        starts = [float(fr.t_start), float(f0.t_start), float(sl.t_start), float(f0.copy().t_start),
+                  float(f0.get_waterfall().header['tstart'])]
+        return _h(fr.data, n1, n2, s1, s2, fr.noise_mean, fr.noise_std, [np.asarray(x) for x in d], starts, f0.data, f0.ts), info
     if name in ('F2', 'F3'):
         src = stg.Frame(fchans=12, tchans=4, df=2.0, dt=1.0, fch1=1e9, seed=13, t_start=86400.0 * 5, ascending=(name == 'F3'))
         src.add_noise(3.0)
